@@ -90,7 +90,7 @@ def _all_nonzero(v):
 
 
 def body_arith(env, shape=(2, 3), leaves=(('x', 'pixel', 'world', 'derived'), ('y', 'const', 'pixel'), ('x', 'const', 'derived')),
-               views=None, fixed=None, op1s=None):
+               views=None, fixed=None, op1s=None, vsel=None):
     """((L1 op1 L2) op2 L3) [** 2] built with the real ComponentID / ComponentLink operators"""
     from glue.core.component_link import ComponentLink
     d, x, y = build(env, shape)
@@ -116,6 +116,8 @@ def body_arith(env, shape=(2, 3), leaves=(('x', 'pixel', 'world', 'derived'), ('
     d.add_component_link(expr, 'r')
     if views is None:
         views = views_for(shape)
+    if vsel is not None:
+        views = views[vsel[0]::vsel[1]]
     view = views[env.choice('view', len(views))]
     want_full = np.broadcast_to(oexpr, shape)
     try:
@@ -374,14 +376,20 @@ def harnesses(tier):
                               bounds=dict(stored=2, derived=3, action='update_id', shared_left_operand=bool(sh))))
     else:
         for shape in [(2, 3), (4,), (2, 2, 2)]:
-            nsplit = 11
+            nsplit = len(views_for(shape))
             for i in range(nsplit):
                 hs.append(Harness('arith %s views#%d/%d' % (shape, i, nsplit), body_arith, params=dict(shape=shape, vsel=(i, nsplit)),
-                                  validate=30, weight=5, max_paths=1000000, wall_s=3400, bounds=dict(shape=shape, depth=2)))
+                                  validate=30, weight=5, max_paths=1000000, wall_s=3400,
+                                  bounds=dict(shape=shape, depth=2, view=view_repr(views_for(shape)[i]))))
             hs.append(Harness('userfunc %s' % (shape,), body_userfunc, params=dict(shape=shape), validate=30, bounds=dict(shape=shape)))
             hs.append(Harness('parsed %s' % (shape,), body_parsed, params=dict(shape=shape), validate=30, bounds=dict(shape=shape)))
-        hs.append(Harness('removal n=4', body_removal, params=dict(n_derived=4), validate=30, weight=9, wall_s=3400,
-                          max_paths=1000000, bounds=dict(stored=2, derived=4)))
+        for sh in (0, 1):
+            for pre in (0, 1, 2):
+                for ac in (0, 1):
+                    hs.append(Harness('removal n=4 shared=%d %s prelude=%d' % (sh, ['remove', 'update_id'][ac], pre), body_removal,
+                                      params=dict(n_derived=4, share=sh, action=ac, preludes=(pre,)), validate=30, weight=9, wall_s=3400,
+                                      max_paths=1000000, bounds=dict(stored=2, derived=4, action=['remove', 'update_id'][ac],
+                                                                     shared_left_operand=bool(sh), prelude=pre)))
         hs.append(Harness('removal n=3 off hub', body_removal, params=dict(n_derived=3, on_hub=False), validate=30,
                           bounds=dict(stored=2, derived=3, on_hub=False)))
     return hs
